@@ -12,9 +12,8 @@ import (
 	"github.com/gauss-project/aurorafs/pkg/cac"
 	"github.com/gauss-project/aurorafs/pkg/crypto"
 	"github.com/gauss-project/aurorafs/pkg/soc"
-	"golang.org/x/crypto/sha3"
-
 	"verifharness/core"
+	"verifharness/refimpl"
 )
 
 type prop struct{}
@@ -181,58 +180,13 @@ type runner struct {
 func (prop) New() core.Runner { return &runner{} }
 func (*runner) Close()        {}
 
-func keccak(b ...[]byte) []byte {
-	h := sha3.NewLegacyKeccak256()
-	for _, x := range b {
-		h.Write(x)
-	}
-	return h.Sum(nil)
-}
-func refRoot(b []byte) []byte {
-	if len(b) == 64 {
-		return keccak(b)
-	}
-	return keccak(refRoot(b[:len(b)/2]), refRoot(b[len(b)/2:]))
-}
-func refBmt(p []byte) []byte {
-	buf := make([]byte, C)
-	copy(buf, p[8:])
-	return keccak(p[:8], refRoot(buf))
-}
+func keccak(b ...[]byte) []byte { return refimpl.Keccak(b...) }
 
-// independent owner recovery: EIP-191 prefix + btcec.RecoverCompact + keccak(pub)[12:], without pkg/soc or pkg/crypto
-func refRecover(sig, digest []byte) []byte {
-	if len(sig) != 65 {
-		return nil
-	}
-	bs := make([]byte, 65)
-	bs[0] = sig[64]
-	copy(bs[1:], sig[:64])
-	h := keccak([]byte(fmt.Sprintf("\x19Ethereum Signed Message:\n%d", len(digest))), digest)
-	p, _, err := btcec.RecoverCompact(btcec.S256(), bs, h)
-	if err != nil || p == nil || p.X == nil {
-		return nil
-	}
-	pb := elliptic.Marshal(btcec.S256(), p.X, p.Y)
-	return keccak(pb[1:])[12:]
-}
-
-// reference parse of the property statement: (digest, owner, ok)
-func refParse(data []byte) (digest, owner []byte) {
-	if len(data) < hdr {
-		return nil, nil
-	}
-	w := data[97:]
-	if len(w) > C+8 {
-		return nil, nil
-	}
-	digest = keccak(data[:32], refBmt(w))
-	return digest, refRecover(data[32:97], digest)
-}
-func refValid(addr, data []byte) bool {
-	dg, owner := refParse(data)
-	return dg != nil && owner != nil && bytes.Equal(addr, keccak(data[:32], owner))
-}
+// the reference predicates (written from the property statement, independent of pkg/soc and
+// pkg/crypto) live in harness/refimpl
+func refRecover(sig, digest []byte) []byte         { return refimpl.Recover(sig, digest) }
+func refParse(data []byte) (digest, owner []byte) { return refimpl.SocParse(data) }
+func refValid(addr, data []byte) bool             { return refimpl.SocValid(addr, data) }
 
 func (rn *runner) annotate(ctx *core.Ctx) {
 	dg, owner := refParse(rn.cur.data)
